@@ -87,6 +87,7 @@ type Run struct {
 	inconclusive []string
 	observations map[string]int64
 	extra        map[string]any
+	maxima       map[string]float64
 	findings     []Finding
 	replayMode   bool
 }
@@ -162,6 +163,18 @@ func (r *Run) Event(kind string, n int) {
 func (r *Run) Observe(kind string, n int) {
 	r.mu.Lock()
 	r.observations[kind] += int64(n)
+	r.mu.Unlock()
+}
+
+// Max keeps the maximum of a measured quantity (reported under "maxima").
+func (r *Run) Max(key string, v float64) {
+	r.mu.Lock()
+	if r.maxima == nil {
+		r.maxima = map[string]float64{}
+	}
+	if cur, ok := r.maxima[key]; !ok || v > cur {
+		r.maxima[key] = v
+	}
 	r.mu.Unlock()
 }
 
@@ -278,6 +291,9 @@ func (r *Run) Finish() int {
 	}
 	if r.Exhaustive {
 		cov["exhaustive"] = true
+	}
+	if len(r.maxima) > 0 {
+		cov["maxima"] = r.maxima
 	}
 	for k, v := range r.extra {
 		cov[k] = v
